@@ -19,8 +19,8 @@ VERIF = Path(__file__).resolve().parent.parent
 LEAN = VERIF / 'lean'
 DRV = LEAN / '.lake' / 'build' / 'bin' / 'cliffdrv'
 REPO = Path(os.environ.get('VERIF_REPO', '/repo'))
-EVIDENCE = VERIF / 'evidence'
-REPLAYS = VERIF / 'replays'
+EVIDENCE = Path(os.environ['VERIF_EVIDENCE_DIR']) if os.environ.get('VERIF_EVIDENCE_DIR') else VERIF / 'evidence'
+REPLAYS = (Path(os.environ['VERIF_EVIDENCE_DIR']) / 'replays') if os.environ.get('VERIF_EVIDENCE_DIR') else VERIF / 'replays'
 PY = '/venv/bin/python'
 
 ALLOWED_AXIOMS = {'propext', 'Classical.choice', 'Quot.sound'}
@@ -211,7 +211,10 @@ def worker_env(jit: bool, cache_dir: str):
     env = dict(os.environ)
     env['NUMBA_CACHE_DIR'] = cache_dir
     env['PYTHONDONTWRITEBYTECODE'] = '1'
-    env['PYTHONPATH'] = str(VERIF) + (os.pathsep + env['PYTHONPATH'] if env.get('PYTHONPATH') else '')
+    # the venv's install is editable (imports /repo); a VERIF_REPO override (used only to try seeded changes in a
+    # scratch worktree without touching /repo) is put in front so that `import clifford` resolves there
+    env['PYTHONPATH'] = os.pathsep.join([str(REPO), str(VERIF)] + ([env['PYTHONPATH']] if env.get('PYTHONPATH') else []))
+    env['VERIF_REPO'] = str(REPO)
     env['CLIFFORD_VERIF'] = '1'
     if jit:
         env.pop('NUMBA_DISABLE_JIT', None)
